@@ -68,6 +68,8 @@ class Matcher:
                 if op.get("inst") not in self.dead:
                     self.add("harness.skipped_live", n)
                     break
+                if op["op"] == "clone":
+                    self.dead.add(op["as"])
                 continue
             if op.get("inst") in self.dead and op["op"] != "new":
                 self.add("op_exc", n, expected="construction failed", actual="machine exists")
